@@ -11,6 +11,17 @@ Three kinds of case:
 * ``shape``   malformed calls (wrong ranks, wrong sizes, illegal ``dim``, shapes that do not
   broadcast), every flavour: the documented error class, never a value.
 
+MIXED DTYPES between the arguments (``mixed``): the value in every dtype other than that of query / key /
+parameters (int64 / int32 / int16 / int8 / uint8 counts, bool features, float16 / bfloat16 / float64 /
+float32), query and key in every pair of dtypes torch's type promotion admits for the flavour (dot: all
+100; generalised: key = parameter dtype, any query; concat: promote(query, key) = parameter dtype); for
+multi-headed attention the value path (W^V, W^C, value) in float64 beside float32 queries / keys.  Oracles:
+the same call with the value converted (exactly) to the promoted dtype, the convexity bounds on the exact
+contents, "result = sum_t a_t v_t" with the weights the softmax returned (to the precision of the promoted
+dtype), and the Lean model on the exact contents.  Combinations torch's own operations reject (key dtype
+other than the parameters', a mask that is not bool) are outside the domain: recorded, judged only if the
+implementation accepts them.
+
 Orthogonal options of ``single`` / ``multi`` cases: ``dtype`` (float32 / float64), memory ``layout``
 (contiguous / strided / transposed / explicitly expanded stride-0 views), ``alias`` (value IS key, the
 same tensor object), and ``mag`` — the LARGE-MAGNITUDE stream: integer valued queries, keys and
@@ -602,6 +613,9 @@ def close(a, b, scale, tol=TOL):
     return None if d <= tol * scale else f"max |diff| = {d:.3g}"
 
 
+WSUM_WORST = {}  # dtype of the result -> largest observed |out - sum_t a_t v_t| / tolerance
+
+
 def wsum_diff(a, vals, out, i, T, P):
     """The result is the weighted sum of the values under the weights the softmax returned, computed in the
     promoted dtype P: |out - sum_t a_t v_t| <= (T + 2) eps(P) max|v| (each product and each partial sum is
@@ -617,6 +631,7 @@ def wsum_diff(a, vals, out, i, T, P):
     d = (o - ref).abs()
     tol = (T + 2) * float(torch.finfo(P).eps) * scale
     if float(d.max()) <= tol:
+        WSUM_WORST[str(P)] = max(WSUM_WORST.get(str(P), 0.0), float(d.max()) / tol)
         return None
     j = int(d.reshape(-1).argmax())
     return (f"{float(o.reshape(-1)[j])!r} vs sum_t a_t v_t = {float(ref.reshape(-1)[j])!r} "
@@ -632,8 +647,11 @@ class C20(PropertyCheck):
             "batch==heads / batch!=heads x inner flavour x d_v/out_size passed or defaulted; malformed-shape "
             "stream over all flavours; large-magnitude stream (flavour x {offset, opposed, random, extreme} x "
             "{float32, float64}, single and multi-headed, exact integer scores 1e4..1e13 and +-finfo.max); "
-            "long sequences / long vectors (T <= 64, K <= 16); dtype, memory layout (strided, transposed, "
-            "expanded views), value-is-key aliasing varied in every stream. Integer q/k/v, int/dyadic/float "
+            "long sequences / long vectors (T <= 64, K <= 16); mixed dtypes (flavour x parameter dtype x value "
+            "dtype in {float16, bfloat16, float32, float64, int64, int32, int16, int8, uint8, bool}; every "
+            "(query dtype, key dtype) pair torch's type promotion admits; value path of multi-headed attention "
+            "in float64; a few rejected combinations); dtype, memory layout (strided, transposed, "
+            "expanded views), value-is-key aliasing, mixed dtypes varied in every stream. Integer q/k/v, int/dyadic/float "
             "parameters. non-trivial: >= 1 masked and >= 2 kept positions in some element of the broadcast "
             "batch; distinct by the full case dict")
     assumptions = [
@@ -646,8 +664,13 @@ class C20(PropertyCheck):
         "the driver's model exponentiates with exp(x - c), c = the largest kept score (per head): proved equal "
         "to the plain model in exact arithmetic (C20_shift_invariant, C20_multihead_shift)",
         "large-magnitude stream: inputs are restricted to integers small enough for every score to be exact "
-        "in the tensor dtype (concat: pre-activations are multiples of 32, tanh = -1/0/1 exactly); float16 / "
-        "bfloat16 are not exercised",
+        "in the tensor dtype (concat: pre-activations are multiples of 32, tanh = -1/0/1 exactly)",
+        "mixed dtypes: which combinations are legal, the dtype A of the weights and the dtype P of the result are "
+        "computed from torch's type-promotion rules written in the harness (expected_dtypes), not observed on "
+        "the implementation; tolerances involving float16 / bfloat16 are 4 eps of the coarsest dtype in the "
+        "chain scores -> weights -> result (1e-5 otherwise, as before); 'result = sum_t a_t v_t' is checked to "
+        "(T + 2) eps(P) max|v|; the parameters are float32 / float64 only (half-precision parameters, complex "
+        "values and a changed torch default dtype are not exercised); the result DTYPE is recorded, not judged",
         "driver glue: row-major addressing of the flat tensor data (flatIndex/mkTensor/allIdx in C20Main.lean)",
     ]
     quick_budget_s = 75
@@ -1030,22 +1053,6 @@ class C20(PropertyCheck):
         if not torch.isfinite(out).all():
             fails.append(["non-finite output on finite inputs with >= 1 kept position", "C20.nonfinite"])
             return fails
-        # mixed dtypes: the result has the promoted dtype and equals the result for the same values stored in
-        # that dtype (the conversion is exact; the weights do not depend on the values)
-        if out.dtype != P:
-            fails.append([f"result dtype {out.dtype}, type promotion of the weights ({A}) with the values "
-                          f"({v.dtype}) gives {P}", "C20.mixed_dtype"])
-        if v.dtype != P:
-            try:
-                out_p = mod(q, k, v.to(P), mask)
-                d = close(out, out_p, 1.0, (T + 2) * float(torch.finfo(P).eps) * scale)
-                if d:
-                    fails.append([f"values of dtype {v.dtype}: result {out.reshape(-1).tolist()[:6]} differs from "
-                                  f"the result for the same values stored as {P} "
-                                  f"{out_p.reshape(-1).tolist()[:6]} ({d})", "C20.mixed_dtype"])
-            except Exception as e:  # noqa
-                fails.append([f"call with the values converted to {P} raised {type(e).__name__}: {e}"[:200],
-                              "C20.mixed_dtype"])
         # the call is a pure function of its arguments: grad mode / training flag change nothing,
         # the arguments are not written to
         before = [None if x is None else x.clone() for x in (q, k, v, mask)]
@@ -1095,6 +1102,21 @@ class C20(PropertyCheck):
                 fails.append([f"output coordinate {float(out.reshape(-1)[j])!r} outside [min, max] = "
                               f"[{float(lo.reshape(-1)[j])}, {float(hi.reshape(-1)[j])}] of the kept values",
                               "C20.convex"])
+        # mixed dtypes: the result equals the result for the same values stored in the dtype torch's type
+        # promotion gives for weights * value (that conversion is exact; the weights do not depend on the
+        # values), to the precision of that dtype
+        if v.dtype != P:
+            try:
+                out_p = mod(q, k, v.to(P), mask)
+                d = close(out, out_p, 1.0, (T + 2) * float(torch.finfo(P).eps) * scale)
+                if d:
+                    fails.append([f"values of dtype {v.dtype}, weights of dtype {A}: result "
+                                  f"{out.reshape(-1).tolist()[:6]} ({out.dtype}) differs from the result for the "
+                                  f"same values stored as {P}, {out_p.reshape(-1).tolist()[:6]} ({d})",
+                                  "C20.mixed_dtype"])
+            except Exception as e:  # noqa
+                fails.append([f"call with the values converted to {P} raised {type(e).__name__}: {e}"[:200],
+                              "C20.mixed_dtype"])
         # blindness: masked keys / values replaced by random finite values
         if not bool(mfull.all()):
             for trial in range(3):
@@ -1192,9 +1214,6 @@ class C20(PropertyCheck):
                     if bool(((s - 1).abs() > max(TOL, 2 * _heps(A))).any()):
                         obs["checks"].append([f"attention weights sum to {s.tolist()} over the sequence axis, not 1",
                                               "C20.weights"])
-                    if a.dtype != A:
-                        obs["checks"].append([f"attention weights have dtype {a.dtype}, the scores {A}",
-                                              "C20.mixed_dtype"])
                     # the result IS the convex combination under these weights (C20_convex_of_weights)
                     if list(out.shape) == Eb + [v.shape[-1]]:
                         d = wsum_diff(a.broadcast_to(ET), vf, out, i, T, P)
@@ -1353,6 +1372,8 @@ class C20(PropertyCheck):
     def extra_checks(self, rng, tier, report):
         # largest observed |impl - model| as a fraction of the allowed tolerance, per observable
         report["extra"]["worst_diff_over_tolerance"] = {k: round(v, 4) for k, v in sorted(self._worst.items())}
+        # the same for "result = sum_t a_t v_t" (tolerance (T + 2) eps(P) max|v|), per dtype of the result
+        report["extra"]["worst_wsum_diff_over_tolerance"] = {k: round(v, 4) for k, v in sorted(WSUM_WORST.items())}
 
     def compare(self, case, impl, model):
         out = []
@@ -1491,11 +1512,18 @@ class C20(PropertyCheck):
         if case.get("mixed"):
             qn, kn, vn, pn = arg_dtypes(case)
             t.append("mixed:value=" + vn + ("(full mantissa)" if case["mixed"].get("vfrac") else ""))
-            t.append("mixed:query,key=" + ("as parameters" if qn == kn == pn else qn + "," + kn))
+            t.append("mixed:query=" + qn)
+            t.append("mixed:key=" + kn)
+            t.append("mixed:query,key=" + ("as parameters" if qn == kn == pn else "same, not the parameters'"
+                                           if qn == kn else "different"))
             t.append("mixed:domain=" + ("rejected (" + impl["rejected"] + ")" if isinstance(impl, dict)
                                         and "rejected" in impl else "accepted"))
             if "m" in case["mixed"]:
                 t.append("mixed:mask=" + case["mixed"]["m"])
+            if isinstance(impl, dict) and "dtypes" in impl:
+                # observed, not judged: the property speaks about values, not about dtypes
+                t.append("mixed:result_dtype=" + ("promoted" if impl["dtypes"]["out"] == str(expected_dtypes(case)[1])
+                                                  else "OTHER THAN torch's promotion of weights and value"))
         else:
             t.append("mixed:none" + ("+value_path_float64" if case.get("vpath") else ""))
         t.append("layout=" + (case.get("layout") or "contiguous") + ("+value_is_key" if case.get("alias") else ""))
@@ -1552,6 +1580,10 @@ class C20(PropertyCheck):
                 c = dict(case)
                 del c[key]
                 yield c
+        if case.get("mag") and case.get("mixed"):
+            c = dict(case)  # a dtype failure rarely needs the large scores
+            del c["mag"]
+            yield c
         mx = case.get("mixed") or {}
         for key in ("q", "k", "vfrac"):
             # towards "only the value has another dtype"; the failure must survive for the step to be kept
